@@ -448,6 +448,7 @@ func main() {
 	if *out != "" {
 		extractCli(filepath.Dir(*out))
 		extractPurity(filepath.Dir(*out))
+		extractText(filepath.Dir(*out))
 	}
 	if *reportF != "" {
 		sort.Strings(rep.Unrecognised)
